@@ -14,7 +14,7 @@ func init() {
 		Explanation: "Structural necessary conditions of C03 decided on all CFG paths: (R03.1) the only return of age.Decrypt with a non-nil reader is dominated by the true edge of a full-length constant-time/byte equality between headerMAC(fileKey, hdr) and hdr.MAC; " +
 			"(R03.2) the hdr that is MACed is the value returned by format.Parse and no function reachable from Decrypt stores to a field of format.Header/format.Stanza/age.Stanza outside fresh memory; " +
 			"(R03.3) Stanza.Marshal/MarshalWithoutMAC serialise every field of the struct types (field list taken from go/types) over all recipients in order; (R03.4) Header.Marshal reaches the recipients only through MarshalWithoutMAC; " +
-			"(R03.5) headerMAC's key-derivation recipe equals the specification table and its HMAC is fed by MarshalWithoutMAC only; (R03.6) every error return of Decrypt and stream.NewReader carries a nil reader.",
+			"(R03.5) headerMAC's key-derivation recipe equals the specification table and its HMAC is fed by MarshalWithoutMAC only; (R03.6) every error return of Decrypt and stream.NewReader carries a nil reader. (R03.9) nothing takes the payload reader before the header-MAC comparison; (R03.10 = R07.6) no loop of the header reader takes a line and passes it over.",
 		NotDecided:  "collision resistance of HMAC-SHA256; that the MACed bytes equal the received bytes (canonical parsing, see C07).",
 		Assumptions: []string{"hmac.Equal/bytes.Equal/subtle.ConstantTimeCompare compare whole slices", "external identities passed by a caller do not mutate the stanzas they are given"},
 		Run:         runC03,
